@@ -1,4 +1,5 @@
 import FlVerif.Op.Fld
+import FlVerif.Lemmas.CodeFld
 
 /-! # C18 — FuzzyLite Dataset export is a faithful tabulation of the engine (grid part)
 
@@ -201,7 +202,7 @@ theorem iroot_spec (n : Nat) (hn : 0 < n) (v : Nat) : isRoot n v (iroot n v) := 
   induction v with
   | zero =>
     simp only [iroot, isRoot]
-    exact ⟨by rw [Nat.zero_pow hn]; exact Nat.le_refl _, by simp⟩
+    exact ⟨Nat.le_of_eq (Nat.zero_pow hn), by simp⟩
   | succ v ih =>
     obtain ⟨h1, h2⟩ := ih
     simp only [iroot]
@@ -322,5 +323,35 @@ theorem reader_filter (skip : Nat) (lines : List String) :
 theorem header_switches (i o : List String) :
     header i o true true = i ++ o ∧ header i o true false = i ∧ header i o false true = o ∧ header i o false false = [] := by
   simp [header]
+
+/-! ## Tie A (code → model) for the grid -/
+
+/-- **Tie A.**  `Gen.Code.Op_increment` is regenerated from the source of `Op.increment` on every run
+    (`fv/pylean.py`: the recursion with a fuel bound, `x[position] += 1` / `x[position] = minimum[position]` as
+    updates of the list that the caller sees).  Called as the exporter calls it (minimum values 0, one maximum per
+    digit, no position) it terminates, leaves the list `Op.Fld.increment` computes and returns its flag. -/
+theorem code_increment (x : List Nat) (maximum : List Int) (h : maximum.length = x.length) :
+    ∃ σ, Gen.Code.Op_increment.run x (List.replicate x.length 0) maximum none {} = .ok σ ∧
+      σ.x = (increment x (maximum.map Int.toNat)).1 ∧ σ.ret = some (increment x (maximum.map Int.toNat)).2 :=
+  Op.Fld.code_increment x maximum h
+
+/-- **Tie A.**  `Gen.Code.write_from_scope` is regenerated from the source of `FldExporter.write_from_scope`
+    (`vars` = what the loop reads of the input variables, `guess` = the floating-point `int(pow(values, 1 / inputs))`,
+    any function).  `AllVariables` without input variables is a `ValueError`; otherwise the function terminates, the
+    root after the two correcting loops is `correctedRoot` of the guess, the resolution is `resolutionAll`
+    (`values - 1` for `EachVariable`), the maxima are `maxValues`, and the collected rows are the rows of `grid`, in
+    its order, with the values `Op.Fld.rowOf` (`minimum + index * drange / max(1, resolution)` for an active variable). -/
+theorem code_grid (vars : List Py.Fld.Var) (values : Nat) (allVariables : Bool) (guess : Nat → Nat → Nat) :
+    if allVariables = true ∧ vars = [] then
+      Gen.Code.write_from_scope.run vars values allVariables guess {} = .error .value
+    else
+      let res := if allVariables then resolutionAll vars.length values else resolutionEach values
+      let mx := maxValues (vars.map (·.active)) res
+      ∃ σ, Gen.Code.write_from_scope.run vars values allVariables guess {} = .ok σ ∧
+        (allVariables = true → σ.root = ((correctedRoot vars.length values (guess values vars.length) : Nat) : Int)) ∧
+        σ.resolution = (if allVariables then ((res : Nat) : Int) else (values : Int) - 1) ∧
+        σ.max_values.map Int.toNat = mx ∧
+        σ.input_values = (grid mx).map (rowOf vars σ.resolution) :=
+  Op.Fld.code_grid_of increment_lex_succ rank_lt correctedRoot_eq vars values allVariables guess
 
 end C18
